@@ -443,7 +443,9 @@ func (fe *FE) applyContract(st *State, ins ssa.Instruction, ci *callInfo, res ss
 		t := st.clone()
 		tcc := *cc
 		tcc.st = t
-		fe.applyModifies(t, &tcc, con, name)
+		if !con.PanicSafe {
+			fe.applyModifies(t, &tcc, con, name)
+		}
 		fe.bumpCnt(t)
 		t.path = append(t.path, "panic-in:"+shortName(name))
 		fe.doPanic(t, "callee "+name+" panics", "", "")
@@ -529,6 +531,10 @@ func (fe *FE) applyContract(st *State, ins ssa.Instruction, ci *callInfo, res ss
 	}
 	for i, e := range con.EnsuresA {
 		assumeExported(e.E, fmt.Sprintf("ensures_always %d of %s", i, name))
+	}
+	for i, e := range con.EnsuresT {
+		fe.usedAsm[fmt.Sprintf("trusted postcondition of %s: %s (%s:%d)", shortName(name), e.Src, shortFile(e.File), e.Line)] = true
+		assumeExported(e.E, fmt.Sprintf("ensures_trusted %d of %s", i, name))
 	}
 	if res != nil {
 		if len(results) == 1 {
@@ -1627,7 +1633,7 @@ func (fe *FE) execFmt(st *State, ins ssa.Instruction, callee *ssa.Function, ci *
 //   kc.RuleEntities: when no error of any kind: every entry is a non-nil entity whose RuleName is its key (duplicate
 //   names are a SemErr), and there is at least one rule (grammar: primary = ruleEntity+)
 func (fe *FE) execAntlrWalk(st *State, ins ssa.Instruction, ci *callInfo, site string) bool {
-	fe.usedExt["extern antlr pipeline (native model execAntlrWalk: error lists reflect LexErrs/SynErrs/SemErrs of the text for exactly the attached listeners; an error-free walk leaves a non-empty map of non-nil entities keyed by their names)"] = true
+	fe.usedExt["extern antlr pipeline (native model execAntlrWalk: error lists reflect LexErrs/SynErrs/SemErrs of the text for exactly the attached listeners; an error-free walk leaves a non-empty map of non-nil entities keyed by their names; a blank text is a syntax error)"] = true
 	var text string
 	lexLis, parLis := "", ""
 	origin := func(v ssa.Value) string {
@@ -1743,5 +1749,7 @@ func (fe *FE) execAntlrWalk(st *State, ins ssa.Instruction, ci *callInfo, site s
 	}
 	st.assume(fmt.Sprintf("(=> %s (forall ((k Str)) (! (=> (select %s k) (and (> (select %s k) %s) (<= (select %s k) %s) (= (select %s (select %s k)) k))) :pattern ((select %s k)))))", ok0, dom, val, prev, val, fe.cntTerm(st), nameArr, val, val))
 	st.assume(fmt.Sprintf("(=> (and (not (SynErrs %s)) (not (SemErrs %s))) (> %s 0))", text, text, ln))
+	// grammar fact (primary: ruleEntity+): a text without any token is a syntax error
+	st.assume(fmt.Sprintf("(=> (blank %s) (SynErrs %s))", text, text))
 	return true
 }
